@@ -1495,13 +1495,14 @@ aiff_write_header (SF_PRIVATE *psf, int calc_length)
 	psf_binheader_writef (psf, "Etm844", BHWm (SSND_MARKER), BHW8 (psf->datalength + SIZEOF_SSND_CHUNK), BHW4 (0), BHW4 (0)) ;
 
 	/* Header construction complete so write it out. */
+	/* The header must end where the audio data starts : never write a header of another length over existing data. */
+	if (has_data && psf->dataoffset != psf->header.indx)
+		return psf->error = SFE_INTERNAL ;
+
 	psf_fwrite (psf->header.ptr, psf->header.indx, 1, psf) ;
 
 	if (psf->error)
 		return psf->error ;
-
-	if (has_data && psf->dataoffset != psf->header.indx)
-		return psf->error = SFE_INTERNAL ;
 
 	psf->dataoffset = psf->header.indx ;
 
